@@ -40,8 +40,9 @@ def run(tier, replay=None):
     tot = {}
     for args, rc, js, err in res:
         if rc != 0 or js is None:
-            v.violation("harness-crash:rc=%s" % rc, {"args": [str(a) for a in args[:5]], "stderr": err})
-            continue
+            # a simulator fault inside a compared step is caught and reported as a mismatch by the harness itself;
+            # anything else that kills the process is a failure of the machinery, not a verdict on the property
+            raise common.HarnessError("lock-step worker ended with status %s: %s" % (rc, err[-500:]))
         for k in ("cycles", "cases", "stores", "sysreq", "filtered", "arch_reached", "binaries"):
             tot[k] = tot.get(k, 0) + js[k]
         for o in range(16):
